@@ -1,26 +1,26 @@
 #!/bin/sh
-# Runs the repository's baseline test suite (guard OFF) on a scratch worktree of /repo HEAD
-# and compares with BASELINE.json's stable_pass list.  usage: run_suite.sh <tag>
-TAG=${1:-suite}
-WT=/tmp/wt_$TAG
+# usage: run_pkg_tests.sh <tag> <pkg...>  - runs package tests on a scratch worktree of /repo HEAD, compares with baseline stable list
+TAG=$1; shift
+WT=/tmp/wtp_$TAG
 export GOFLAGS=-mod=mod GOPROXY=off GOSUMDB=off GOTOOLCHAIN=local
 git -C /repo worktree remove --force $WT 2>/dev/null
 git -C /repo worktree add -q $WT HEAD || exit 2
-cd $WT && go test -json -vet=off -count=1 -timeout 25m ./... > /tmp/suite_$TAG.json 2>/tmp/suite_$TAG.err
+cd $WT && go test -json -vet=off -count=1 -timeout 25m "$@" > /tmp/pkg_$TAG.json 2>/tmp/pkg_$TAG.err
 python3 - "$TAG" <<'PY'
 import json,sys
 tag=sys.argv[1]
 base=json.load(open('/root/.vp/BASELINE.json'))
 stable=set(base['stable_pass'])
 res={}
-for l in open('/tmp/suite_%s.json'%tag):
+for l in open('/tmp/pkg_%s.json'%tag):
     try: e=json.loads(l)
     except: continue
     if e.get('Test') and e.get('Action') in('pass','fail','skip'):
         res[e['Package']+'::'+e['Test']]=e['Action']
-bad=[t for t in stable if res.get(t)!='pass']
-print('HEAD', open('/tmp/wt_%s/.git'%tag).read().strip() if False else '')
-print('stable tests:',len(stable),'passing now:',len(stable)-len(bad))
+pk=set(k.split('::')[0] for k in res)
+rel=[t for t in stable if t.split('::')[0] in pk]
+bad=[t for t in rel if res.get(t)!='pass']
+print('packages:',sorted(pk)); print('stable tests in these packages:',len(rel),'passing:',len(rel)-len(bad))
 for t in sorted(bad): print('NOT PASSING:',t,res.get(t))
 PY
 git -C /repo rev-parse --short HEAD
